@@ -538,8 +538,8 @@ def r15g(ctx, run):
                 return
             scrut, sscope = b["src"]
             z = scrut
-            while z.get("k") in ("ref", "un", "paren"):
-                z = z["e"]
+            while z.get("k") in ("ref", "un", "paren") or (z.get("k") == "mcall" and z["m"] in ("clone", "as_ref", "to_owned", "borrow")):
+                z = z["e"] if z.get("k") != "mcall" else z["r"]
             # the node the sub-expression was taken out of
             home = None
             if z.get("k") == "index" and z["e"].get("k") == "index" and canon(z["e"]["e"]) == "self.world_bodies":
